@@ -182,13 +182,21 @@ func Attach(cl *qsim.Cluster) *Mon {
 					}
 				}
 			} else if !bytes.Equal(first[nd.ID], st.DecidedValue) {
-				res.Agreement = append(res.Agreement, Finding{"decided-value-changed", "state",
+				sig := "state"
+				if dv := doubleVote(cl); dv != "" {
+					sig = dv
+				}
+				res.Agreement = append(res.Agreement, Finding{"decided-value-changed", sig,
 					fmt.Sprintf("node %d first reported %q, now %q", nd.ID, first[nd.ID], st.DecidedValue)})
 			}
 			if ref == nil {
 				ref, refNode = st.DecidedValue, nd.ID
 			} else if !bytes.Equal(ref, st.DecidedValue) {
-				res.Agreement = append(res.Agreement, Finding{"disagreement", fmt.Sprintf("N=%d", n),
+				sig := fmt.Sprintf("N=%d", n)
+				if dv := doubleVote(cl); dv != "" {
+					sig = dv
+				}
+				res.Agreement = append(res.Agreement, Finding{"disagreement", sig,
 					fmt.Sprintf("node %d decided %q, node %d decided %q (height %d)", refNode, ref, nd.ID, st.DecidedValue, cfg.Height)})
 			}
 		}
@@ -203,6 +211,49 @@ func Attach(cl *qsim.Cluster) *Mon {
 		}
 	}
 	return &Mon{Res: res, Check: check}
+}
+
+// doubleVote names, for the signature of an agreement violation, how a CORRECT operator came to broadcast two commits for
+// different values in one round (empty if none did): the history "timed out of the round, then learnt that round's decision
+// from a decided message (UponDecided moves it back into the round, its accepted-proposal marker is gone), then the runner's
+// compaction of the decided state cleared the propose container" is told apart from every other double vote.
+func doubleVote(cl *qsim.Cluster) string {
+	for _, nd := range cl.Honest() {
+		seen := map[specqbft.Round][32]byte{}
+		for _, m := range nd.AllOut {
+			if m.Message.MsgType != specqbft.CommitMsgType || len(m.Signers) != 1 || m.Message.Height != cl.Cfg.Height {
+				continue
+			}
+			r := m.Message.Round
+			prev, ok := seen[r]
+			if !ok {
+				seen[r] = m.Message.Root
+				continue
+			}
+			if prev == m.Message.Root {
+				continue
+			}
+			// nd committed twice in round r
+			timedOut, learnt := false, false
+			for _, in := range nd.Trace {
+				if in.Kind == qsim.InTimeout && in.Round == r && !in.Err {
+					timedOut = true
+				}
+				if timedOut && in.Kind == qsim.InMsg && in.Msg != nil && !in.Err && in.Msg.Message.MsgType == specqbft.CommitMsgType &&
+					len(in.Msg.Signers) > 1 && in.Msg.Message.Round == r {
+					learnt = true
+				}
+			}
+			if cl.Cfg.RunnerCompaction && timedOut && learnt {
+				return "correct-operator-committed-twice-in-a-round/timeout-then-decided-message-of-that-round-then-runner-compaction"
+			}
+			if cl.Cfg.RunnerCompaction {
+				return "correct-operator-committed-twice-in-a-round/runner-compaction"
+			}
+			return "correct-operator-committed-twice-in-a-round"
+		}
+	}
+	return ""
 }
 
 // Run executes one adversarial execution and returns what the monitors observed. One execution in three opens with a
@@ -229,13 +280,15 @@ func Run(c *evid.Case, env *qsim.Env, cfg qsim.Config, after func(cl *qsim.Clust
 	cl.StartAll()
 	track()
 	if directed {
-		switch c.Rng.Intn(5) {
+		switch c.Rng.Intn(6) {
 		case 0:
 			if SplitPrepare(cl, track) {
 				res.Directed = "split-prepare"
 			}
 		case 1:
 			res.Directed = SplitVote(cl, track)
+		case 2:
+			res.Directed = DecideThenEquivocate(cl, track)
 		default:
 			res.Directed = LockThenBreak(cl, track)
 		}
